@@ -46,6 +46,13 @@ def MultivariateNormal.sample (self : MultivariateNormal α) (rng : Rng) : List 
     `ChiSquared::new(ν)` is `Gamma::new(ν/2, 0.5)`; it fails (→ `unwrap` panic) exactly when the
     inner `Gamma::new` does.  `w * &M` scales every entry (`e * w`, commutative in IEEE). -/
 def MultivariateStudent.sample (self : MultivariateStudent α) (rng : Rng) : Option (List α × Rng) :=
+  if (RFun.isInf self.f_freedom) = true then
+    -- since 864abd5: `freedom = inf` is the multivariate normal limit, mixing weight `w = 1.0`, no chi-squared draw
+    let w := (1.0 : α)
+    let (z, rng) := stdNormalVec (α := α) self.f_location.length rng
+    let m := self.f_scale_chol_decomp.map (fun r => r.map (fun e => e * w))
+    some (vadd (LA.matvec m z) self.f_location, rng)
+  else
   match Statrs.Gen.ChiSquared.new (α := α) self.f_freedom with
   | .error _ => none
   | .ok s =>
